@@ -85,6 +85,8 @@ func (x *Exec) runAnchors(s ast.Stmt, after bool, st *State, env *Env) {
 		return
 	}
 	var text string
+	var asserted []*Anchor // assert anchors applied at this statement (an "abstract" anchor re-assumes them)
+	var assertedFacts [][2]int
 	for _, a := range x.ct.Anchors {
 		if a.After != after {
 			continue
@@ -107,7 +109,54 @@ func (x *Exec) runAnchors(s ast.Stmt, after bool, st *State, env *Env) {
 			continue
 		}
 		a.used = true
+		if a.Kind == "abstract" {
+			x.abstractVar(a, asserted, s, st, env)
+			// the facts assumed by those asserts (about the concrete value) are subsumed now
+			for _, r := range assertedFacts {
+				if r[1] > r[0] {
+					x.fc.dead = append(x.fc.dead, r)
+				}
+			}
+			assertedFacts = nil
+			continue
+		}
+		n0 := len(x.fc.facts)
 		x.applyAnchor(a, s, st, env)
+		if a.Kind == "assert" {
+			asserted = append(asserted, a)
+			assertedFacts = append(assertedFacts, [2]int{n0, len(x.fc.facts)})
+		}
+	}
+}
+
+// abstractVar implements "abstract v": the local variable v gets a fresh, unconstrained value and the
+// assert anchors already applied at the same statement are assumed again for the new value. The
+// asserts were proved for the concrete value, so the concrete value is one of the values the fresh
+// constant may take: everything proved afterwards holds for it (hypotheses are only weakened). This
+// keeps large defining terms (bit-vector expressions) out of all later obligations.
+func (x *Exec) abstractVar(a *Anchor, asserted []*Anchor, s ast.Stmt, st *State, env *Env) {
+	sc := specCtx{pos: s.End(), pkgName: x.pkg.Name}
+	if !a.After {
+		sc.pos = s.Pos()
+	}
+	name := strings.TrimSpace(a.C.Text)
+	ex, err := x.checkSpec(name, sc.pos, x.pkg, nil)
+	if err != nil {
+		x.abort("abstract %s: %v", name, err)
+	}
+	x.specDepth++
+	lv := x.evalLV(ex, st, env)
+	x.specDepth--
+	if lv.Sl != nil || strings.HasPrefix(lv.Path, "*") {
+		x.abort("abstract %s: only local variables can be abstracted", name)
+	}
+	x.freshInto(st, lv.Path, lv.Typ, name)
+	if sv, ok := st.vars[lv.Path].(Scalar); ok && sv.TI.K == TInt {
+		x.fc.assume("true", sv.TI.inRange(sv.T))
+	}
+	for _, as := range asserted {
+		t := x.evalClause(as.C, sc, st, env)
+		x.fc.assume(st.pc, t)
 	}
 }
 
